@@ -145,6 +145,29 @@ type TableSpec struct {
 	FaultAt  int `json:"fault_at,omitempty"`
 	// PropOps: a history of SetProperty calls on columns, applied in order after Align/Skip
 	PropOps []PropOp `json:"prop_ops,omitempty"`
+	// Reenter: the table carries a render-time callback (registered after the
+	// build) that renders the SAME wrapper once more while the outer render is
+	// in progress (1: Render() from a table-level pre-cell callback, 2: RenderTo
+	// into a collecting writer from a table-level post-cell callback, 3: Render()
+	// from a callback run for every cell); it changes nothing, and the outer
+	// render must still produce the table.
+	Reenter int `json:"reenter,omitempty"`
+}
+
+// reenterCB is a render-time callback that runs f unless it is already running.
+type reenterCB struct {
+	depth *int
+	f     func()
+}
+
+func (c reenterCB) UpdateProperties(tabular.PropertyOwner) error {
+	if *c.depth > 0 {
+		return nil
+	}
+	*c.depth++
+	defer func() { *c.depth-- }()
+	c.f()
+	return nil
 }
 
 // PropOp: one SetProperty on a column after everything else: Key 0 = alignment
@@ -232,6 +255,23 @@ func (ts TableSpec) BuildRenderW(t tabular.Table, mk func(tabular.Table) RenderW
 	}
 	if w == nil {
 		w = mk(t)
+	}
+	if ts.Reenter > 0 {
+		depth := 0
+		inner := func() { capture(w.Render) }
+		if ts.Reenter == 2 {
+			inner = func() {
+				capture(func() (string, error) { return "", w.RenderTo(&collectWriter{failAt: -1}) })
+			}
+		}
+		switch ts.Reenter {
+		case 1:
+			t.RegisterPropertyCallback(t, tabular.CB_AT_RENDER_PRECELL, tabular.CB_ON_ITSELF, reenterCB{&depth, inner})
+		case 2:
+			t.RegisterPropertyCallback(t, tabular.CB_AT_RENDER_POSTCELL, tabular.CB_ON_ITSELF, reenterCB{&depth, inner})
+		default:
+			t.RegisterPropertyCallback(t, tabular.CB_AT_RENDER, tabular.CB_ON_CELL, reenterCB{&depth, inner})
+		}
 	}
 	var o Outcome
 	if ts.FinalVia == 1 {
@@ -570,6 +610,10 @@ func enrichSpec(r *RNG, ts *TableSpec, text func(*RNG) ItemSpec) {
 			ts.Mutations = append(ts.Mutations, Mutation{Row: c[0], Col: c[1], S: nw})
 		}
 	}
+	// a render-time callback renders the same wrapper again, re-entrantly
+	if r.Pct(6) {
+		ts.Reenter = 1 + r.Intn(3)
+	}
 }
 
 func (ts TableSpec) Size() int {
@@ -592,6 +636,7 @@ func (ts TableSpec) Size() int {
 	if ts.StageFaults {
 		n++
 	}
+	n += 2 * ts.Reenter
 	return n + len(ts.Align) + len(ts.Skip) + 3*len(ts.Stages) + 2*len(ts.AlignEarly) + 2*len(ts.SkipEarly) + 3*len(ts.Mutations) + ts.FinalVia + ts.FaultAt + 2*len(ts.PropOps)
 }
 
